@@ -168,7 +168,7 @@ def run(ctx):
         cross["groups_with_format_change"] += bool(changed)
         if has_d14a_file(base["scen"]):
             cross["d14a_excluded"] += 1
-            if len(set(vs)) > 1:
+            if len(set(vs)) > 1 and all(not r["diff"] for r in grp):   # the model shows the same difference
                 cross["d14a_differs"] += 1
                 if not any(k.startswith("D14a in in_toto_verify") for k in ctx.known):
                     ctx.known.append("D14a in in_toto_verify: a link with signatures [bad, good] by its functionary counts when stored "
